@@ -184,6 +184,27 @@ fn check_body(ctx: Ctx, body: &str, t: &Table, st: &mut Stats) {
     st.evaluations += 1;
     st.count("cells");
     let rep = || json!({"ctx": format!("{ctx:?}"), "body": body, "case": c.to_json()});
+    // a quarter of the cells (by content) also under exact_errors: the resolution must not depend on it
+    if hash_str(body) % 4 == 0 {
+        st.count("cells_repeated_with_exact_errors");
+        match super::c01::impl_tokens_with(&c, &[], true) {
+            Ok(e) => {
+                let e_t: Vec<RTok> = e.iter().map(|x| x.0.clone()).collect();
+                if e_t != imp_t {
+                    st.violation(
+                        &format!("charref:{ctx:?}:exact_errors"),
+                        &format!("{ctx:?} body={}: with exact_errors the tokens are {:?}, without {:?}", show(body), e_t.iter().map(|t| t.short()).collect::<Vec<_>>(), imp_t.iter().map(|t| t.short()).collect::<Vec<_>>()),
+                        rep(),
+                    );
+                    return;
+                }
+            },
+            Err(m) => {
+                st.violation(&format!("charref:panic:exact_errors:{}", crate::report::panic_signature(&m)), &format!("{ctx:?} body={} with exact_errors: the tokenizer panicked: {m}", show(body)), rep());
+                return;
+            },
+        }
+    }
     // oracle 1: the direct resolver over the independent table
     if let Some(exp) = direct_expectation(ctx, body, t) {
         st.count("cells_checked_by_direct_resolver");
@@ -203,7 +224,10 @@ fn check_body(ctx: Ctx, body: &str, t: &Table, st: &mut Stats) {
     }
 }
 
-const FOLLOWERS: [&str; 15] = ["", ";", "=", "0", "z", "Z", " ", "\n", "\r", "<", "&", "\"", "'", "é", "#"];
+// the non-ASCII followers are letters and digits only in Unicode's sense (superscript two, vulgar
+// fraction, Arabic-Indic digit, fullwidth digit and letter, Roman numeral): the attribute exception
+// is about ASCII alphanumerics and '=' only
+const FOLLOWERS: [&str; 22] = ["", ";", "=", "0", "z", "Z", " ", "\n", "\r", "<", "&", "\"", "'", "é", "#", "\u{b2}", "\u{bd}", "\u{663}", "\u{ff11}", "\u{ff21}", "\u{2167}", "9"];
 const FOLLOWERS_QUICK: [&str; 7] = ["", ";", "=", "z", "0", " ", "<"];
 
 fn name_variants(name: &str, t: &Table) -> Vec<String> {
@@ -387,7 +411,7 @@ pub fn run(args: &Args) -> (Meta, Stats) {
                     bodies.push(format!("&#x{head}{d};"));
                 }
             }
-            for b in ["&", "&;", "&#", "&#x", "&#X", "&#;", "&#x;", "&1", "& ", "&=", "&#z", "&#xg", "&#x;", "&##", "&&amp;", "&amp;&amp", "&#65;&#66", "&é", "&\u{10ffff};"] {
+            for b in ["&", "&;", "&#", "&#x", "&#X", "&#;", "&#x;", "&1", "& ", "&=", "&#z", "&#xg", "&#x;", "&##", "&&amp;", "&amp;&amp", "&#65;&#66", "&é", "&\u{10ffff};", "&foo;", "&x1;", "&am;", "&Aacut;", "&foo", "&zzzzzzzzzzzzzzzzzzzzzzzzzzzzzzzzzzzzzz;", "&a;", "&1;", "&am;p;", "&notanentity;x"] {
                 bodies.push(b.to_string());
             }
             for b in &bodies {
